@@ -15,7 +15,7 @@ import os
 import re
 
 from . import common, coverage, bvals
-from .common import AnalysisBroken, strip, walk, const_value, enum_name, string_value
+from .common import AnalysisBroken, strip, walk, const_value, enum_name, string_value, calls
 
 EXPLANATION = (
     "T1: handled(FOAM tag) = union of the case labels of the outermost switches along the dispatch chain, not counting "
@@ -352,6 +352,65 @@ def t7(rep):
                       "-(-x) is printed as --x, which C reads as a pre-decrement")
 
 
+def t8(rep):
+    """Fluid bindings: a program that rebinds fluids pushes them once in its prologue (gc0Compound) and every C `return` the generator
+    emits for it is preceded by the pop.  gccReturn is the only producer of the return statement of a FOAM Return: each of its exits
+    must have passed the foamProgUsesFluids test, and the exits on its true side carry gc0PopFluid()."""
+    f = common.extract("genc.c", all_trees=True, cfg=["gccReturn"])
+    fn = f.func("gccReturn")
+    cfg = common.CFG(fn)
+    where = "genc.c:%d (gccReturn)" % fn["l"]
+
+    def is_test(n):
+        return n.get("mac") == "foamProgUsesFluids" or n.get("imac") == "foamProgUsesFluids"
+    tests = [bid for bid in cfg.blocks if (cfg.cond_edges(bid) or (None,))[0] is not None and is_test(cfg.cond_edges(bid)[0])]
+    if not tests:
+        raise AnalysisBroken("gccReturn: no branch on foamProgUsesFluids(...)")
+    if not cfg.return_blocks():
+        raise AnalysisBroken("gccReturn: no return statement in the CFG")
+    esc = cfg.path_avoiding(cfg.entry, lambda n: n["k"] == "ReturnStmt", is_test)
+    if esc is None:
+        rep.ok("T8", "return:every-exit-tests-fluids")
+    else:
+        rep.violation("T8", "return:every-exit-tests-fluids", where,
+                      "a path through gccReturn reaches a return without the foamProgUsesFluids test: the C `return` for that form of "
+                      "FOAM Return leaves the function with the caller's fluid bindings still replaced (the interpreter restores them)",
+                      detail={"cfg_path": esc[:12]})
+    for bid in tests:
+        _, tsucc, _ = cfg.cond_edges(bid)
+        esc = cfg.path_avoiding(tsucc, None, lambda n: n["k"] == "CallExpr" and n.get("callee") == "gc0PopFluid", src_idx=-1)
+        key = "return:fluid-side-pops@%d" % bid if len(tests) > 1 else "return:fluid-side-pops"
+        if esc is None:
+            rep.ok("T8", key)
+        else:
+            rep.violation("T8", key, where, "when the program uses fluids gccReturn can return a fragment built without gc0PopFluid()",
+                          detail={"cfg_path": esc[:12]})
+    prog = f.func("gc0Compound")
+    for callee in ("gc0PushFluid", "gc0PopFluid"):
+        cs = calls(prog["body"], callee)
+        if len(cs) == 1:
+            rep.ok("T8", "prog:%s-once" % callee)
+        elif not cs:
+            rep.violation("T8", "prog:%s-once" % callee, "genc.c:%d (gc0Compound)" % prog["l"], "gc0Compound no longer emits %s()" % callee)
+        else:
+            raise AnalysisBroken("gc0Compound calls %s %d times: pairing not understood" % (callee, len(cs)))
+    users = {}
+    for name, g in f.funcs.items():
+        if "body" in g:
+            for callee in ("gccReturnValues", "gc0PopFluid", "gc0PushFluid"):
+                if calls(g["body"], callee):
+                    users.setdefault(callee, set()).add(name)
+    want = {"gccReturnValues": {"gccReturn"}, "gc0PopFluid": {"gccReturn", "gc0Compound"}, "gc0PushFluid": {"gc0Compound"}}
+    for callee, w in want.items():
+        got = users.get(callee, set())
+        if got == w:
+            rep.ok("T8", "callers:" + callee, nontrivial=False)
+        elif got - w:
+            raise AnalysisBroken("%s is now also called from %s: fluid push/pop pairing must be re-read" % (callee, sorted(got - w)))
+        else:
+            rep.violation("T8", "callers:" + callee, "genc.c", "%s is no longer called from %s" % (callee, sorted(w - got)))
+
+
 def run(tier, only=None):
     rep = common.Report("C03", tier, EXPLANATION)
     f_fint = common.extract("fint.c", trees=INTERP_CHAIN + ["fintInitForeignGlobValue"])
@@ -363,6 +422,7 @@ def run(tier, only=None):
     t5(rep)
     t6(rep)
     t7(rep)
+    t8(rep)
     try:
         t4(rep, tier)
     except AnalysisBroken as e:
